@@ -585,6 +585,10 @@ class ProceduralResolver:
 	# Operator
 
 	def on_factor(self, node: defs.Factor, operator: IReflection, value: IReflection) -> IReflection:
+		# -True / +True / ~True are int in Python (bool is promoted by every unary arithmetic operator)
+		if value.impl(refs.Object).type_is(bool):
+			return self.reflections.from_standard(int).stack(node)
+
 		return value.stack(node)
 
 	def on_not_compare(self, node: defs.NotCompare, operator: IReflection, value: IReflection) -> IReflection:
